@@ -98,6 +98,12 @@ func VerifC09Contains() {
 		nd.Assert(c09Bool("a contains p", map[string]any{"a": [2]int64{int64(x), int64(y)}, "p": probe}) == (x == z || y == z), "contains-fixed-array-member")
 		nd.Assert(!c09Bool("a contains p", map[string]any{"a": []any{}, "p": probe}), "contains-empty-array")
 		nd.Assert(c09Bool("a contains 's'", map[string]any{"a": []any{x, "s", y}}), "contains-string-member")
+		// membership is by ==, and nil == nil: an array with a nil element contains nil, however nil is spelled
+		var np *int
+		for _, e := range []string{"a contains nil", "a contains nope", "a contains p", "a contains a[1]", "a contains q"} {
+			nd.Assert(c09Bool(e, map[string]any{"a": []any{x, nil}, "p": nil, "q": np}), "array-with-nil-contains-nil")
+			nd.Assert(!c09Bool(e, map[string]any{"a": []any{x, "s"}, "p": nil, "q": np}) || e == "a contains a[1]", "array-without-nil-does-not-contain-nil")
+		}
 	case 2: // map key
 		k := nd.StringFrom(1, "kjz")
 		got := c09Bool("m contains p", map[string]any{"m": map[string]any{"k": 1, "j": nil}, "p": k})
